@@ -50,7 +50,7 @@ Definition waiting (tr : trace) (n : bname) : list call :=
   filter (fun c => bname_eqb c.(c_dest) n && negb (mem c.(c_id) (fated tr))) (calls tr).
 
 (* connection c has said Hello (connections are numbered in the order of their Hello) and has not disconnected since *)
-Definition is_connect (e : event) : bool := match e with EConnect => true | _ => false end.
+Definition is_connect (e : event) : bool := match e with EConnect _ => true | _ => false end.
 Definition is_disconnect (c : N) (e : event) : bool := match e with EDisconnect c' => c' =? c | _ => false end.
 Definition n_conn (h : list event) : N := nlen (filter is_connect h).
 Fixpoint live_from (next : N) (h : list event) (c : N) : bool :=
